@@ -111,7 +111,9 @@ func main() {
 		}
 		for f := range ov {
 			fmt.Println("rewritten:", f)
-			if len(os.Args) > 3 {
+			if len(os.Args) > 3 && os.Args[3] == "write" {
+				_ = os.WriteFile(f, ov[f], 0644) // scratch copies only: lets `go build` show what does not type-check
+			} else if len(os.Args) > 3 {
 				fmt.Println(string(ov[f]))
 			}
 		}
